@@ -36,6 +36,11 @@ type World struct {
 	Touched map[string]bson.D
 	// Adopt lists generated ids the model took from the real result.
 	nextAdopt []interface{}
+	inBulk    bool
+	// ModifiedMax counts, for the last call, the documents whose bytes changed
+	// in the model (>= the modified count by value; the two differ when only
+	// the exponent of a decimal128 changed, which is not asserted).
+	ModifiedMax int64
 	// SkipResult is set when the outcome of the last call is not asserted
 	// (its effect on the contents is still modelled).
 	SkipResult bool
@@ -480,6 +485,9 @@ func (w *World) update(db, coll string, f, s bson.D, u bson.D, af []bson.D, many
 	for _, p := range idx {
 		// (decimal128 values are compared by value: the exponent a decimal result
 		// keeps is not part of the asserted semantics)
+		if string(gen.Bytes(c.Docs[p])) != string(gen.Bytes(newDocs[p])) {
+			w.ModifiedMax++
+		}
 		if !ref.SameValue(c.Docs[p], newDocs[p]) {
 			out.modified++
 			id, _ := getID(c.Docs[p])
@@ -588,6 +596,9 @@ func (w *World) createIndex(db, coll string, s drv.IndexSpec) (string, string, b
 func (w *World) Exec(op *drv.Op) drv.Res {
 	w.Touched = map[string]bson.D{}
 	w.SkipResult = false
+	if !w.inBulk {
+		w.ModifiedMax = 0
+	}
 	var res drv.Res
 	filter := op.Filter
 	if filter == nil {
@@ -723,7 +734,9 @@ func (w *World) Exec(op *drv.Op) drv.Res {
 		for i := range op.Models {
 			m := op.Models[i]
 			m.DB, m.Coll = op.DB, op.Coll
+			w.inBulk = true
 			r := w.Exec(&m)
+			w.inBulk = false
 			if w.SkipResult {
 				skip = true
 			}
